@@ -811,17 +811,24 @@ def transform(node, *callbacks):
         return node
 
     def callback(node):
+        # The latest parsed object that stood for this node: an earlier callback
+        # may have turned the node into something that has no metadata.
+        origin = node
+
         for f in callbacks:
             prev = node
             node = f(prev)
 
+            if isinstance(prev, ParsedObject):
+                origin = prev
+
             if node is not prev:
                 if (
-                    isinstance(prev, ParsedObject)
+                    isinstance(origin, ParsedObject)
                     and isinstance(node, ParsedObject)
                     and not node._metadata
                 ):
-                    node._metadata.update(prev._metadata)
+                    node._metadata.update(origin._metadata)
 
         return node
 
